@@ -1881,9 +1881,22 @@ func patchCode(context *funcContext) { // {{{
 	}
 	moven := 0
 	code := context.Code.List()
+	// the instructions a jump can land on: a bulk move must not swallow one of them
+	target := make(map[int]bool, len(context.labelPc))
+	for _, lpc := range context.labelPc {
+		target[lpc+1] = true
+	}
 	for pc := 0; pc < len(code); pc++ {
 		inst := code[pc]
 		curop := opGetOpCode(inst)
+		if moven > 0 && target[pc] {
+			// a jump lands here: the group ends before this instruction
+			if moven > 1 {
+				context.Code.SetOpCode(pc-moven, OP_MOVEN)
+				context.Code.SetC(pc-moven, intMin(moven-1, opMaxArgsC))
+			}
+			moven = 0
+		}
 		switch curop {
 		case OP_CLOSURE:
 			if reg := opGetArgA(inst); reg > maxreg {
